@@ -22,6 +22,11 @@ notes = os.path.join(agent, 'notes_%s_%s.txt' % (pid, i))
 meta = {'property': prop, 'index': int(i), 'repo_head': head, 'kind': 'property-preserving change (false-alarm probe)'}
 ap = subprocess.run(['git', '-C', MUT, 'apply', diff], stdout=subprocess.PIPE, stderr=subprocess.STDOUT)
 if ap.returncode != 0:
+    # written against an older HEAD: let git merge it (the blobs are in the shared object store)
+    ap = subprocess.run(['git', '-C', MUT, 'apply', '--3way', diff], stdout=subprocess.PIPE, stderr=subprocess.STDOUT)
+    subprocess.call(['git', '-C', MUT, 'reset', '-q'])
+    meta['applied_with_3way_merge'] = True
+if ap.returncode != 0:
     print('PATCH DOES NOT APPLY', ap.stdout.decode()); sys.exit(2)
 if '--tests' in sys.argv:
     t = subprocess.run(['/venv/bin/python', '-m', 'pytest', '-q', '-p', 'no:cacheprovider', '-n', '12', 'glue/core'], cwd=MUT,
@@ -45,7 +50,7 @@ meta['quiet'] = all(v['exit'] == 0 for v in results.values())
 meta['checks'] = ids
 dst = '/verif/benign/%s-%s' % (pid, i)
 os.makedirs(dst, exist_ok=True)
-shutil.copy(diff, os.path.join(dst, 'patch.diff'))
+open(os.path.join(dst, 'patch.diff'), 'wb').write(subprocess.check_output(['git', '-C', MUT, 'diff']))
 if os.path.exists(notes):
     shutil.copy(notes, os.path.join(dst, 'notes.txt'))
 json.dump(meta, open(os.path.join(dst, 'meta.json'), 'w'), indent=1)
